@@ -52,10 +52,13 @@ ASSUMPTIONS = [
     "'written precision' = one unit of the last printed decimal of the field (1 mm, 1 mm/s for coordinates as in the "
     "statement); covariance elements are printed with 13 significant digits (1e-12 relative)",
     "classification / ephemeris type of an OMM are outside the attributes the statement enumerates: recorded, not judged",
-    "leap seconds are avoided (days 2..27 of a month); frames are Earth-centred built-in frames",
+    "leap seconds are avoided (days 2..27 of a month); frames are the 10 Earth-centred built-in frames, plus (job "
+    "'jpl-centres') the body/barycentre frames created by beyond.env.jpl.create_frames from the DE403 kernel",
 ]
 
 FRAMES = ["EME2000", "GCRF", "MOD", "TOD", "TEME", "CIRF", "G50", "ITRF", "PEF", "TIRF"]
+# frames of the job 'jpl-centres' (name of the frame = name of its centre; EME2000 axes)
+JPL_FRAMES = ["Moon", "Mars", "Sun", "MarsBarycenter", "EarthBarycenter", "SolarSystemBarycenter", "Venus", "JupiterBarycenter"]
 SCALES = ["UTC", "TAI", "TT", "GPS", "UT1", "TDB"]
 MU_EARTH = 3.986004418e14  # only used to lay out plausible ephemeris points (not judged)
 DATE_FMT = "%Y-%m-%dT%H:%M:%S.%f"
@@ -64,6 +67,8 @@ FMTS = ("kvn", "xml")
 # tolerances = one unit of the last printed decimal, in SI (see each writer's format string)
 TOL_POS = 1e-3  # X Y Z        '%.6f' km              -> 1 mm           (statement: 1 mm)
 TOL_VEL = 1e-3  # X_DOT ...    '%.6f' km/s            -> 1 mm/s         (statement: 1 mm/s)
+TOL_FORM_REL = 1e-9  # extra allowance, relative to |r| / |v|, only when the *input* was given in a non-cartesian form: the
+#                      writer converts it to cartesian first and C01 accepts 1e-9 relative for that conversion (probed ~3e-12)
 TOL_DV = 1e-3  # MAN_DV_i      '%.6f' km/s            -> 1 mm/s
 TOL_DUR = 1e-3  # MAN_DURATION '%.3f' s               -> 1 ms
 TOL_COV_REL = 1e-12  # C*_*    '%.12e'                -> 13 significant digits
@@ -84,18 +89,20 @@ TOL_EPOCH_US = 1  # statement: to the microsecond
 # =================================================================================================
 def jobs(tier):
     if tier == "quick":
-        n_arg, n_cfg = 2400, 800
+        n_arg, n_cfg = 5000, 1500
     else:
-        n_arg, n_cfg = 160000, 80000
+        n_arg, n_cfg = 100000, 50000
     return [
         {"name": "arg", "n": n_arg, "eop": "real", "cfg_fmt": None},
         {"name": "cfg-xml", "n": n_cfg, "eop": "real", "cfg_fmt": "xml"},
         {"name": "cfg-kvn", "n": n_cfg, "eop": "real", "cfg_fmt": "kvn"},
+        # OPM / OEM around other centres (frames created by beyond.env.jpl from the DE403 kernel + PCK)
+        {"name": "jpl-centres", "n": n_cfg // 2, "eop": "real", "cfg_fmt": None, "jpl": "pck", "centres": True},
     ]
 
 
 def requirements(tier):
-    k = 1 if tier == "quick" else 20
+    k = 1 if tier == "quick" else 12
     req = {
         "type:opm": 800 * k, "type:oem": 500 * k, "type:omm": 300 * k, "type:tdm": 400 * k,
         "restore-evaluated:opm:kvn": 500 * k, "restore-evaluated:opm:xml": 300 * k,
@@ -127,6 +134,8 @@ def requirements(tier):
         req["cov:" + c] = 100 * k
     for o in range(2, 10):
         req[f"oem:lagrange-order:{o}"] = 15 * k
+    for c in JPL_FRAMES:
+        req["centre:" + c] = 20 * k
     return req
 
 
@@ -255,8 +264,8 @@ def gen_naming(rng):
     return {"name_via": via, "name": gen_name(rng), "cospar_id": gen_cospar(rng)}
 
 
-def gen_opm(rng, k):
-    frame = pick(FRAMES, k)
+def gen_opm(rng, k, frames=FRAMES):
+    frame = pick(frames, k)
     scale = pick(SCALES, k // 2)
     n_user = pick([0, 1, 2, 5], k // 3)
     n_man = pick([0, 1, 2, 3], k // 5)
@@ -266,8 +275,10 @@ def gen_opm(rng, k):
     r, v, info = gen_state(rng)
     hyper = info["e"] > 1
     form = "cartesian"
-    if rng.random() < 0.2:
-        form = rng.choice(["keplerian"] if hyper else ["keplerian", "spherical", "keplerian_circular", "equinoctial", "keplerian_mean"])
+    if rng.random() < 0.2 and not hyper and frame in FRAMES:
+        # non-cartesian inputs only where the form conversion is well conditioned (bound Earth orbits, Earth's mu):
+        # the conversion itself is C01's subject
+        form = rng.choice(["keplerian", "spherical", "keplerian_circular", "equinoctial", "keplerian_mean"])
     spec = {
         "mtype": "opm", "cls": cls, "propagator": rng.choice(["Kepler", "J2", None]) if cls == "Orbit" else None,
         "form": form, "frame": frame, "scale": scale, "epoch": iso(epoch), "epoch_class": ecls, "r": r, "v": v, "orbit": info,
@@ -300,14 +311,14 @@ def gen_segment(rng, frame, scale, n, ncov_class, method, order):
     cov_kind = rng.choice(COV_KINDS[1:])
     for i in which:
         points[i]["cov"] = gen_cov(rng, cov_kind if rng.random() < 0.8 else rng.choice(COV_KINDS[1:]), frame)
-    form = "cartesian" if rng.random() < 0.9 else rng.choice(["keplerian", "spherical"])
+    form = "cartesian" if (rng.random() < 0.9 or frame not in FRAMES) else rng.choice(["keplerian", "spherical"])
     seg = {"frame": frame, "scale": scale, "n": n, "ncov": len(which), "ncov_class": ncov_class, "method": method, "order": order,
            "form": form, "epoch_class": ecls, "points": points}
     seg.update(gen_naming(rng))
     return seg
 
 
-def gen_oem(rng, k):
+def gen_oem(rng, k, frames=FRAMES):
     n = pick([1, 2, 9, 30], k)
     ncov_class = pick(["0", "1", "n"], k // 4)
     if pick([0, 1, 2, 3, 4], k // 3) == 0:
@@ -317,7 +328,7 @@ def gen_oem(rng, k):
     nseg = 2 if pick(range(6), k // 5) == 0 else 1
     segs = []
     for s in range(nseg):
-        segs.append(gen_segment(rng, pick(FRAMES, k // 2 + 3 * s), pick(SCALES, k // 7 + s), n if s == 0 else rng.choice([1, 2, 9, 30]),
+        segs.append(gen_segment(rng, pick(frames, k // 2 + 3 * s), pick(SCALES, k // 7 + s), n if s == 0 else rng.choice([1, 2, 9, 30]),
                                 ncov_class if s == 0 else rng.choice(["0", "1", "n"]), method if s == 0 else rng.choice(["linear", "lagrange"]),
                                 order if s == 0 else rng.choice([None, 2, 5, 8])))
     spec = {"mtype": "oem", "segments": segs, "as_list": nseg == 2 or rng.random() < 0.2, "originator": rng.choice([None, "VMON"])}
@@ -400,7 +411,8 @@ def gen_omm(rng, k):
 
 STATIONS = ["Toulouse", "Kourou", "Kiruna", "STA-7", "Hartebeesthoek"]
 TARGETS = ["SAT", "ISS", "PROBE-2", "1998-067A"]
-TDM_CONTENTS = [("range",), ("azel",), ("range", "azel"), ("doppler",), ("range", "doppler"), ("range", "azel", "doppler"), ("azel",), ("range",)]
+TDM_CONTENTS = [("range",), ("azel",), ("range", "azel"), ("doppler",), ("range", "doppler"), ("range", "azel", "doppler"), ("azel",), ("range",),
+                ("range", "azel"), ("elevation",), ("range",), ("azel",)]
 
 
 def gen_tdm(rng, k):
@@ -419,7 +431,8 @@ def gen_tdm(rng, k):
     for pi, path in enumerate(paths):
         if nobs_class == "1" and (pi == 0 or rng.random() < 0.5):
             ndates = 1
-            types = [rng.choice([t for c in content for t in (("azimut", "elevation") if c == "azel" else (c,))])]
+            # exactly one observation on this path (of az+el only the azimuth: ANGLE_TYPE is then still announced)
+            types = [rng.choice([("azimut" if c == "azel" else c) for c in content])]
         else:
             ndates = rng.randint(2, 25)
             types = [t for c in content for t in (("azimut", "elevation") if c == "azel" else (c,))]
@@ -697,8 +710,9 @@ def reference(spec, orig):
         _need(orig["frame"] == spec["frame"] and orig["epoch"]["scale"] == spec["scale"], "original frame/scale")
         _need(abs((orig["epoch"]["dt"] - parse_iso(spec["epoch"])).total_seconds()) <= 1.5e-6, "original epoch")
         _need(len(orig["mans"]) == len(spec["mans"]), "original maneuvers")
-        ref = {"epoch": orig["epoch"], "frame": spec["frame"], "center": "Earth", "rv": np.array(list(spec["r"]) + list(spec["v"])),
-               "cov": ref_cov(spec["cov"], orig["cov"]), "user": dict(spec["user"]), "mans": []}
+        _need(orig["center"] == ("Earth" if spec["frame"] in FRAMES else spec["frame"]), "original centre")
+        ref = {"epoch": orig["epoch"], "frame": spec["frame"], "center": orig["center"], "rv": np.array(list(spec["r"]) + list(spec["v"])),
+               "cov": ref_cov(spec["cov"], orig["cov"]), "user": dict(spec["user"]), "mans": [], "converted": spec["form"] != "cartesian"}
         # the cartesian numbers shown by the original must be the generator's (conversion accuracy is C01's)
         _need(np.allclose(orig["rv"], ref["rv"], rtol=1e-7, atol=1e-4), "original coordinates")
         for m, om in zip(spec["mans"], orig["mans"]):
@@ -735,8 +749,10 @@ def reference(spec, orig):
                 _need(abs((op["epoch"]["dt"] - parse_iso(p["epoch"])).total_seconds()) <= 1.5e-6 and op["epoch"]["scale"] == seg["scale"], "original point epoch")
                 rv = np.array(list(p["r"]) + list(p["v"]))
                 _need(np.allclose(op["rv"], rv, rtol=1e-7, atol=1e-4), "original point coordinates")
-                pts.append({"epoch": op["epoch"], "rv": rv, "cov": ref_cov(p["cov"], op["cov"]), "frame": seg["frame"], "center": "Earth"})
-            r = {"points": pts, "method": seg["method"], "order": seg["order"]}
+                _need(op["center"] == ("Earth" if seg["frame"] in FRAMES else seg["frame"]), "original centre")
+                pts.append({"epoch": op["epoch"], "rv": rv, "cov": ref_cov(p["cov"], op["cov"]), "frame": seg["frame"], "center": op["center"]})
+            _need(oseg["method"] == seg["method"] and (seg["order"] is None or oseg["order"] == seg["order"]), "original interpolation")
+            r = {"points": pts, "method": seg["method"], "order": oseg["order"], "converted": seg["form"] != "cartesian"}  # order None -> the Ephem's own default
             ref_naming(seg, r)
             segs.append(r)
         return {"segments": segs}
@@ -802,12 +818,17 @@ class Cmp:
         self.eq("name", exp["name"], got["name"])
         self.eq("cospar-id", exp["cospar_id"], got["cospar_id"])
 
-    def rv(self, exp, got, where=None):
+    def rv(self, exp, got, where=None, converted=False):
         e, g = np.asarray(exp, dtype=float), np.asarray(got, dtype=float)
         dp = float(np.max(np.abs(e[:3] - g[:3]))) if np.all(np.isfinite(g)) else float("nan")
         dv = float(np.max(np.abs(e[3:] - g[3:]))) if np.all(np.isfinite(g)) else float("nan")
-        self.num("position", dp, TOL_POS, e[:3].tolist(), g[:3].tolist(), where)
-        self.num("velocity", dv, TOL_VEL, e[3:].tolist(), g[3:].tolist(), where)
+        extra = TOL_FORM_REL if converted else 0.0
+        sfx = ":converted-input" if converted else ""
+        # + 4 ulp of the largest coordinate: m -> km, print, parse, km -> m each round once (1.5 ulp derived); only matters
+        # for the far hyperbolic states (|r| ~ 1e12 m has ulp 0.24 mm), 4e-9 m at LEO
+        fp, fv = 4 * float(np.spacing(np.max(np.abs(e[:3])))), 4 * float(np.spacing(np.max(np.abs(e[3:]))))
+        self.num("position" + sfx, dp, TOL_POS + fp + extra * float(np.linalg.norm(e[:3])), e[:3].tolist(), g[:3].tolist(), where, key=self.key("position"))
+        self.num("velocity" + sfx, dv, TOL_VEL + fv + extra * float(np.linalg.norm(e[3:])), e[3:].tolist(), g[3:].tolist(), where, key=self.key("velocity"))
 
     def cov(self, exp, got, where=None):
         if exp is None or got is None:
@@ -865,7 +886,7 @@ class Cmp:
 
     def opm(self, exp, got):
         self.state_common(exp, got)
-        self.rv(exp["rv"], got["rv"])
+        self.rv(exp["rv"], got["rv"], converted=exp.get("converted", False))
         self.mans(exp["mans"], got["mans"])
         self.user(exp["user"], got["user"])
 
@@ -906,7 +927,7 @@ class Cmp:
                 self.epoch("epoch", ep["epoch"], gp["epoch"], where)
                 self.eq("frame", ep["frame"], gp["frame"], where)
                 self.eq("centre", ep["center"], gp["center"], where)
-                self.rv(ep["rv"], gp["rv"], where)
+                self.rv(ep["rv"], gp["rv"], where, converted=es.get("converted", False))
                 self.cov(ep["cov"], gp["cov"], where)
 
     def tdm(self, exp, got):
@@ -969,6 +990,8 @@ def classes_of(spec):
         c["single_observation"] = any(v == 1 for v in per_path.values())
         c["doppler"] = "doppler" in spec["content"] and any(m["type"] == "doppler" for m in spec["measures"])
         c["npaths"] = len(spec["paths"])
+        types = {m["type"] for m in spec["measures"]}
+        c["elevation_without_azimuth"] = "elevation" in types and "azimut" not in types
     return c
 
 
@@ -993,6 +1016,10 @@ def classify(stage, mtype, fmt, exc, cls, loaded_container=None):
             return "C13/xml-single-tdm-observation"
     if loading and mtype == "tdm" and et == "CcsdsError" and "DOPPLER_INSTANTANEOUS" in msg and cls.get("doppler"):
         return "C13/tdm-doppler-written-not-readable"
+    if loading and mtype == "tdm" and cls.get("elevation_without_azimuth") and (
+        (fmt == "kvn" and et == "KeyError" and "ANGLE_TYPE" in msg) or (fmt == "xml" and et in ("UnboundLocalError", "NameError") and "angle_type" in msg)
+    ):
+        return "C13/tdm-elevation-without-azimuth-no-angle-type"
     if dumping and mtype == "omm" and fmt == "kvn" and et == "AttributeError" and "'tle'" in msg and site == "omm._dumps_kvn" and (
         stage == "redump" or cls.get("src") == "direct"
     ):
@@ -1035,6 +1062,15 @@ def setup(ctx, job):
         ctx.count("get_format:" + ("argument" if "fmt" in kw else "config-or-default") + ":" + str(res))
 
     st["probes"].append(probe.attach(commons, "get_format", post=post))
+    if job.get("centres"):
+        from beyond.env.jpl import create_frames
+        from beyond.frames.frames import get_frame
+
+        config.set("env", "jpl", "dynamic_frames", True)
+        create_frames()
+        st["frames"] = [f for f in JPL_FRAMES if get_frame(f).center.name == f]
+        if len(st["frames"]) != len(JPL_FRAMES):
+            raise RuntimeError(f"JPL frames missing: {sorted(set(JPL_FRAMES) - set(st['frames']))}")
     # the message modules bound get_format at import time: wrap their references as well
     from beyond.io.ccsds import opm, oem, omm, tdm
 
@@ -1077,7 +1113,7 @@ def count_classes(ctx, spec):
     if mt == "opm":
         ctx.count("opm:cls:" + spec["cls"])
         ctx.count("opm:form:" + spec["form"])
-        ctx.count("frame:" + spec["frame"])
+        ctx.count(("frame:" if spec["frame"] in FRAMES else "centre:") + spec["frame"])
         ctx.count("scale:" + spec["scale"])
         ctx.count("cov:" + (spec["cov"]["kind"] if spec["cov"] else "absent"))
         if spec["cov"] and spec["cov"]["kind"] in ("state", "other"):
@@ -1106,7 +1142,7 @@ def count_classes(ctx, spec):
             if seg["method"] == "lagrange":
                 ctx.count(f"oem:lagrange-order:{seg['order']}")
             ctx.count("oem:form:" + seg["form"])
-            ctx.count("frame:" + seg["frame"])
+            ctx.count(("frame:" if seg["frame"] in FRAMES else "centre:") + seg["frame"])
             ctx.count("scale:" + seg["scale"])
             for p in seg["points"]:
                 if p["cov"]:
@@ -1116,6 +1152,7 @@ def count_classes(ctx, spec):
     else:
         for c in spec["content"]:
             ctx.count("tdm:" + c)
+        ctx.count("tdm:content:" + "+".join(spec["content"]))
         ctx.count(f"tdm:npaths:{len(spec['paths'])}")
         ctx.count("tdm:single-observation" if classes_of(spec)["single_observation"] else "tdm:many-observations")
         ctx.count("scale:" + spec["scale"])
@@ -1128,7 +1165,12 @@ def run_case(ctx, job, idx, rng, st):
 
     mtype = MTYPE_PATTERN[idx % len(MTYPE_PATTERN)]
     k = idx // len(MTYPE_PATTERN) * 3 + rng.randrange(3)  # class rotation index within the type
-    spec = GEN[mtype](rng, k)
+    if job.get("centres"):
+        mtype = "opm" if idx % 2 == 0 else "oem"
+        k = idx // 2 * 3 + rng.randrange(3)
+        spec = GEN[mtype](rng, k, st["frames"])
+    else:
+        spec = GEN[mtype](rng, k)
     cls = classes_of(spec)
     count_classes(ctx, spec)
     wbase = {"spec": summarize(spec), "cfg_fmt": st["cfg_fmt"]}
@@ -1210,7 +1252,7 @@ def run_case(ctx, job, idx, rng, st):
     # KVN-decoded vs XML-decoded
     if len(extracted) == 2:
         ctx.count(f"kvn-xml-evaluated:{mtype}")
-        Cmp(ctx, mtype, "kvn-xml-differ", None, dict(wbase, kvn=texts["kvn"][:1200], xml=texts["xml"][:1200])).run(_as_ref(extracted["kvn"]), extracted["xml"])
+        Cmp(ctx, mtype, "kvn-xml-differ", None, dict(wbase, kvn=texts["kvn"][:1200], xml=texts["xml"][:1200])).run(extracted["kvn"], extracted["xml"])
         if mtype == "omm" and extracted["kvn"].get("classification") != extracted["xml"].get("classification"):
             ctx.count("omm-classification-kvn-xml-differ(not judged)")
     else:
@@ -1245,18 +1287,13 @@ def run_case(ctx, job, idx, rng, st):
                 continue
             ctx.count("second-gen-evaluated")
             ctx.count(f"second-gen-evaluated:{mtype}:{fmt}->{g}")
-            Cmp(ctx, mtype, "second-generation", f"{fmt}-{g}", dict(w, text=t2[:1500])).run(_as_ref(extracted[fmt]), ez)
+            Cmp(ctx, mtype, "second-generation", f"{fmt}-{g}", dict(w, text=t2[:1500])).run(extracted[fmt], ez)
 
 
 def _container(y):
     if isinstance(y, list):
         return f"list[{len(y)}]"
     return type(y).__name__
-
-
-def _as_ref(e):
-    """An extraction used as the expected side: names are always judged, cov frame type as found."""
-    return e
 
 
 def _tb(exc):
